@@ -166,6 +166,8 @@ func getSnapshot(ctx, key) (r)
 func Snapshot(diff) (r)
   pure
   requires 1 <= N(store) && N(store) <= 255 && 0 <= id(store) && id(store) < N(store)
+  cover [C08] diff == N(store) - 1
+  cover [C08] diff == 0
   ensures [C08] 0 <= diff && diff < N(store)
   ensures [C08] store.has(slot(store, diff)) ==> r == deser_L_Node(store.get(slot(store, diff)))
   ensures [C08] !store.has(slot(store, diff)) ==> len(r) == 0
@@ -173,6 +175,8 @@ func Snapshot(diff) (r)
 func SnapshotByEpoch(epoch) (r)
   pure
   requires 1 <= N(store) && N(store) <= 255 && 0 <= id(store) && id(store) < N(store)
+  cover [C08] epoch == C(store)
+  cover [C08] epoch == C(store) - N(store) + 1
   ensures [C08] C(store) - N(store) < epoch && epoch <= C(store)
   ensures [C08] store.has(slot(store, C(store) - epoch)) ==> r == deser_L_Node(store.get(slot(store, C(store) - epoch)))
   ensures [C08] !store.has(slot(store, C(store) - epoch)) ==> len(r) == 0
@@ -199,6 +203,9 @@ func UpdateSnapshotCount(count)
   requires 1 <= N(store) && N(store) <= 255 && 0 <= id(store) && id(store) < N(store) && count <= 255
   requires 0 <= C(store) && C(store) < 4294967296
   requires NoStale(store)
+  cover [C08] W(alphabet()) && count > N(store) && count == 255
+  cover [C08] W(alphabet()) && count == 1 && N(store) == 10 && id(store) == 5
+  cover [C08] W(alphabet()) && count == 8 && N(store) == 10 && id(store) == 5
   ensures W(alphabet())
   ensures N(store) == count && count != old(N(store)) && C(store) == old(C(store))
   // any accepted count leaves the contract able to tick again
